@@ -3,6 +3,9 @@
 Streams (correspondence, implementation vs Lean model `Core/Narrow.lean`)
   narrow   : constrain_value(V, constraint built exactly as the checker builds it, both polarities)   vs `narrow`
   narrowb  : the same for and / or / not combinations (AndConstraint.make / OrConstraint.make / invert) vs `narrowB`
+  flow     : conditions of the full grammar (atoms on x / on y / opaque operands) in if/elif/while/ternary/assert/walrus
+             position: types revealed in both branches vs `narrowB` (every member of the model's type must be revealed; the
+             revealed type may be wider by the merge of the bool-op subscopes); the module is executed for the search
   match    : `match x: case …` statements through the checker (patma), types revealed in every case body and after the
              statement vs `matchBody` / `matchAfter`; the same module is executed by CPython for the property search
   e2e      : `def f(x: T): if <cond>: reveal_type(x) else: reveal_type(x)` through the checker (inferred Value decoded
@@ -33,6 +36,7 @@ ANCHORS = [
     ("pyanalyze/stacked_scopes.py", "EquivalentConstraint"),
     ("pyanalyze/stacked_scopes.py", "constrain_value"),
     ("pyanalyze/stacked_scopes.py", "_constrain_value"),
+    ("pyanalyze/stacked_scopes.py", "extract_constraints"),
     ("pyanalyze/predicates.py", "is_universally_assignable"),
     ("pyanalyze/predicates.py", "IsAssignablePredicate"),
     ("pyanalyze/predicates.py", "EqualsPredicate"),
@@ -70,6 +74,10 @@ RULE = (
     "combinations of 2-3 leaves with not/and/or; objects: the fixed small-object list (scalars, class objects, containers of "
     "<=2 scalars) plus objects generated from V; end to end: the same triples spelled as source where a spelling exists. "
     "every comparison in both operand orders (`len(x) < 2` and `2 < len(x)`, `x == 1` and `1 == x`, `x is None` and `None is x`); "
+    "conditions of the full grammar: and/or/not trees of depth <=3 over atoms on x, atoms on a second variable y and opaque "
+    "operands that yield no constraint (`flag()`, `a == b`, `a is b`, `a in b`, `isinstance(x, cls_var)`) in if / elif / while / "
+    "ternary / assert / walrus position, the generated module really executed on every object of both declared types x both "
+    "values of every opaque bit (each variable's object must belong to the type revealed in the branch that ran); "
     "match statements (1-4 cases of singleton / value / class / or / wildcard patterns, bodies falling through or returning) over "
     "subjects mixing ==-equal literals of different types (1/True, 0/False, None, enum members, int/bool/float classes), the "
     "generated module is really executed by CPython on every object of the declared type and the object must belong to the type "
@@ -138,10 +146,12 @@ def liveBool : BoolTable where
   enumCountL := [%s]
   mutableL := [%s]
   lenRevMirrored := %s
+  andValueLeaks := %s
 
 end Pya.C02
 """ % (", ".join(map(str, rows_b)), ", ".join(map(str, rows_x)), ", ".join(map(str, counts)),
-       ", ".join("true" if m else "false" for m in mut), "true" if lenrev_mirrored() else "false")
+       ", ".join("true" if m else "false" for m in mut), "true" if lenrev_mirrored() else "false",
+       "true" if and_value_leaks() else "false")
     ch2 = lean.write_if_changed(os.path.join(lean.LEAN, "PyaModel", "Generated", "NarrowTables.lean"), text)
     ctx.extra["tables_regenerated"] = {"class_table_changed": changed, "narrow_tables_changed": ch2, "classes": len(V.CLASSES)}
 
@@ -171,9 +181,35 @@ def lenrev_mirrored():
     return _LENREV[0]
 
 
+_ANDLEAK = []
+
+
+def and_value_leaks():
+    """Behavioural probe of `visit_BoolOp`: does the value of `p() and (p() or x is None)` still carry the constraint of
+    `x is None` on a member value (`not (...)` then narrows x to int: True, the defect `nullAbsorbLeak`), or not (False)?
+    Regenerated into Generated/NarrowTables.lean (`andValueLeaks`)."""
+    if not _ANDLEAK:
+        src = ("from typing import Optional\nfrom typing_extensions import reveal_type\ndef p() -> bool:\n    return False\n"
+               "def f(x: Optional[int]) -> None:\n    if not (p() and (p() or x is None)):\n        reveal_type(x)\n")
+        _, tree, _ = pya.check_source(src, annotate=True)
+        val = None
+        for node in ast.walk(tree):
+            if isinstance(node, ast.Call) and isinstance(node.func, ast.Name) and node.func.id == "reveal_type":
+                val = getattr(node.args[0], "inferred_value", None)
+        val = strip_constraint_ext(val) if val is not None else None
+        if isinstance(val, PV.MultiValuedValue) and len(val.vals) == 2:
+            _ANDLEAK.append(False)
+        elif isinstance(val, PV.TypedValue) and val.typ is int:
+            _ANDLEAK.append(True)
+        else:
+            raise RuntimeError("cannot recognise how `not (p() and (p() or x is None))` is narrowed any more: %r" % (val,))
+    return _ANDLEAK[0]
+
+
 def fixed_classes():
     """exception classes repaired in /repo: a failing input of such a class is a new violation again"""
-    return FIXED_CLASSES | ({"reversedLenCompare"} if lenrev_mirrored() else set())
+    return FIXED_CLASSES | ({"reversedLenCompare"} if lenrev_mirrored() else set()) \
+        | (set() if and_value_leaks() else {"nullAbsorbLeak"})
 
 
 MIRROR = {"eq": "eq", "ne": "ne", "lt": "gt", "le": "ge", "gt": "lt", "ge": "le"}
@@ -1411,17 +1447,24 @@ def flow_stream(ctx, checker, with_model, cases=None):
     rng = ctx.rng
     if cases is None:
         cases = std_flow_cases()
-        for _ in range(ctx.n(170, 5000)):
+        nstd = len(cases)
+        for _ in range(ctx.n(170, 2500)):
             Vx, Vy = rng.choice(FLOW_X), rng.choice(Y_POOL)
             opq = {}
             c = gen_flow_tree(rng, Vx, Vy, rng.choice([1, 2, 2, 3]), opq)
             cases.append((Vx, Vy, c, rng.choice(POSITIONS)))
+    else:
+        nstd = len(cases)
     ok = []
-    for Vx, Vy, c, pos in cases:
+    for n0, (Vx, Vy, c, pos) in enumerate(cases):
         lits = cond_literals(c) + cond_literals(swap_vars(c))
         if cond_text(c) is None or not no_cross_eq(lits, Vx) or not no_cross_eq(lits, Vy):
             continue
-        ok.append((Vx, Vy, c, pos))
+        # the revealed types are compared with `narrowB` for the fixed shapes only: inside deeper trees the checker evaluates
+        # every operand in the scope the earlier operands left (an operand can be unreachable, values are re-flattened between
+        # constraints, the operand scopes are merged), which the constraint model does not describe; all trees are judged by
+        # executing them
+        ok.append((Vx, Vy, c, pos, n0 < nstd))
     B = 120
     S1, S2 = object(), object()
     for b0 in range(0, len(ok), B):
@@ -1430,7 +1473,7 @@ def flow_stream(ctx, checker, with_model, cases=None):
                "def flag0() -> bool:\n    return BITS[0]", "def flag1() -> bool:\n    return BITS[1]",
                "def never() -> bool:\n    return False"]
         metas = []
-        for j, (Vx, Vy, c, pos) in enumerate(part):
+        for j, (Vx, Vy, c, pos, exact) in enumerate(part):
             kinds = {}
             def collect(t):
                 if t[0] == "opq":
@@ -1481,7 +1524,7 @@ def flow_stream(ctx, checker, with_model, cases=None):
                 diagnosed = any(node.lineno <= ln <= node.end_lineno for ln in noisy)
                 revealed[int(node.name[1:])] = (diagnosed, [v for _, v in sorted(vals, key=lambda q: q[0])])
         todo = []
-        for j, (Vx, Vy, c, pos) in enumerate(part):
+        for j, (Vx, Vy, c, pos, exact) in enumerate(part):
             diagnosed, vals = revealed.get(j, (True, None))
             ctx.count(1, flow=1, **{"flow_" + pos: 1})
             want = 4 if pos == "assert" else 6
@@ -1496,18 +1539,18 @@ def flow_stream(ctx, checker, with_model, cases=None):
             case = {"flow": True, "Vx": dec[0], "Vy": dec[1], "cond": c, "pos": pos, "type": ty_src(Vx), "type_y": ty_src(Vy),
                     "condition": cond_text(c), "sV": V.ty_sexp(dec[0]), "sVy": V.ty_sexp(dec[1]), "scond": cond_sexp(c),
                     "scond_y": cond_sexp(swap_vars(c))}
-            todo.append((j, c, pos, dec, case, metas[j]))
+            todo.append((j, c, pos, dec, case, metas[j], exact))
         model = None
         if with_model and todo:
             lines = []
-            for j, c, pos, dec, case, kinds in todo:
+            for j, c, pos, dec, case, kinds, exact in todo:
                 lines += ["narrowb %s %s 1" % (case["sV"], case["scond"]), "narrowb %s %s 0" % (case["sV"], case["scond"]),
                           "narrowb %s %s 1" % (case["sVy"], case["scond_y"]), "narrowb %s %s 0" % (case["sVy"], case["scond_y"])]
             out = lean.run_driver("C02", lines)
             model = [out[k:k + 4] for k in range(0, len(out), 4)]
         lost, spec_lines, spec_ref = [], [], []
-        for n, (j, c, pos, dec, case, kinds) in enumerate(todo):
-            um = unmodelled(dec[0], c) or unmodelled(dec[1], swap_vars(c))
+        for n, (j, c, pos, dec, case, kinds, exact) in enumerate(todo):
+            um = unmodelled(dec[0], c) or unmodelled(dec[1], swap_vars(c)) or not exact
             conforms = True
             # revealed: [x0, y0, x_body, y_body, (x_else, y_else)]; after a `while` the subject is deliberately not narrowed
             pairs = [(2, 0, "x if-branch"), (3, 2, "y if-branch")]
@@ -1592,7 +1635,7 @@ def flow_stream(ctx, checker, with_model, cases=None):
                     elif yi is not None and not G.member(pyy, dec[yi]) and not property_silent(dec[1], oy):
                         bad = ("y", oy, pyy, case["sVy"], case["scond_y"], ox)
                     if bad:
-                        lost.append((case, bad, r, full, conforms and not um))
+                        lost.append((case, bad, r, full, conforms))
                         found = True
                         break
         if with_model and spec_lines:
